@@ -147,6 +147,39 @@ struct Slot {
     info: Mutex<(String, Vec<u8>, u64)>,
 }
 
+/// Case journal for runs that can die without unwinding (AddressSanitizer aborts): when VERIF_JOURNAL_DIR is set every
+/// worker writes the case it is about to execute to its own file, so the wrapper can attribute an abort to a case.
+fn journal_bytes(id: &str, section: &str, worker: usize, bytes: &[u8]) {
+    if JOURNAL_ON.with(|j| *j) {
+        journal_value(id, section, worker, json!({"property": id, "section": section, "bytes_hex": hex(bytes)}));
+    }
+}
+
+thread_local! { static JOURNAL_ON: bool = std::env::var("VERIF_JOURNAL_DIR").is_ok(); }
+
+fn journal<C: Serialize>(id: &str, section: &str, worker: usize, case: &C) {
+    if JOURNAL_ON.with(|j| *j) {
+        journal_value(id, section, worker, json!({"property": id, "section": section, "case": case}));
+    }
+}
+
+fn journal_value(_id: &str, _section: &str, worker: usize, doc: Value) {
+    use std::io::{Seek, SeekFrom, Write};
+    thread_local! { static JFILE: std::cell::RefCell<Option<Option<std::fs::File>>> = const { std::cell::RefCell::new(None) }; }
+    JFILE.with(|cell| {
+        let mut g = cell.borrow_mut();
+        if g.is_none() {
+            *g = Some(std::env::var("VERIF_JOURNAL_DIR").ok().and_then(|dir| std::fs::File::create(format!("{}/journal-{}.json", dir, worker)).ok()));
+        }
+        if let Some(Some(f)) = g.as_mut() {
+            let text = serde_json::to_string(&doc).unwrap_or_default();
+            let _ = f.seek(SeekFrom::Start(0));
+            let _ = f.write_all(text.as_bytes());
+            let _ = f.set_len(text.len() as u64);
+        }
+    });
+}
+
 pub struct Report {
     pub id: &'static str,
     pub tier: Tier,
@@ -540,6 +573,7 @@ impl Report {
                         }
                         slot.start_ms.store(self.start.elapsed().as_millis() as u64 + 1, Ordering::Relaxed);
                         let case = decode(&mut Src::new(&bytes));
+                        journal_bytes(self.id, section, w, &bytes);
                         let out = run(&case);
                         slot.start_ms.store(0, Ordering::Relaxed);
                         if first_sig.is_none() {
@@ -608,6 +642,7 @@ impl Report {
                             break;
                         }
                         slot.start_ms.store(self.start.elapsed().as_millis() as u64 + 1, Ordering::Relaxed);
+                        journal(self.id, section, w, &case);
                         let out = run(&case);
                         slot.start_ms.store(0, Ordering::Relaxed);
                         idx += 1;
